@@ -10,10 +10,10 @@
      fequiv f g        num f * den g = num g * den f  (same rational function)  *)
 From Coq Require Import String List Bool ZArith QArith Qcanon.
 From AL Require C07.Check.
-From AL Require Import Base.CaseLib C07.Model C07.Spec C05.Model C05.Spec C05.Lib C05.Proofs_Run C05.Proofs_Ops
+From AL Require Import Base.CaseLib C07.Model C07.Spec C07.Proofs_Ring C05.Model C05.Spec C05.Lib C05.Proofs_Run C05.Proofs_Ops
   C05.Proofs_Signal C05.Proofs_Signal2 C05.Proofs_List C05.Proofs_Eq C05.Proofs_Domain C05.Proofs_Frac
   C05.Proofs_Field C05.Proofs_Pow C05.Proofs_Subst C05.Proofs_Sem C05.Proofs_Laws C05.Proofs_Norm
-  C05.Proofs_Lin C05.Proofs_Check.
+  C05.Proofs_Lin C05.Proofs_Check C05.Proofs_Hom C05.Proofs_SemFull.
 Import ListNotations.
 Open Scope Qc_scope.
 
@@ -254,27 +254,45 @@ Theorem C05_fpow_neg : forall f m h, fok f -> fnum f <> [] -> fpow f (- Z.of_nat
 Proof. exact fpow_neg. Qed.
 Print Assumptions C05_fpow_neg.
 
-(* f(g) substitutes g for z: (sum_k n_k g^-k) / (sum_k d_k g^-k), n_k d_k the stored coefficients of f, sums and
-   powers in textbook fraction arithmetic; only the rational function of g matters.
-   _partial: that only the rational function of f matters as well (the evaluation map at g is a ring
-   homomorphism on Laurent polynomials) is not proved. *)
-Theorem C05_subst_is_evaluation_partial : forall f g h u v, fok g -> fsubst f g = Ok h ->
+(* f(g) substitutes g for z: (sum_k n_k g^-k) / (sum_k d_k g^-k), n_k d_k the stored coefficients of f, the sums
+   and powers in textbook fraction arithmetic ... *)
+Theorem C05_subst_is_evaluation : forall f g h u v, fok g -> fsubst f g = Ok h ->
   q_at (fnum f) (fr_of g) = Some u -> q_at (fden f) (fr_of g) = Some v -> fst v <> [] ->
   frac_equiv (fr_of h) (q_div u v).
 Proof. exact fsubst_evaluates. Qed.
-Print Assumptions C05_subst_is_evaluation_partial.
+Print Assumptions C05_subst_is_evaluation.
+(* ... only the rational function of g matters ... *)
 Theorem C05_subst_respects_inner : forall f g g' h h' u v, fok g -> fok g' -> fequiv g' g ->
   fsubst f g = Ok h -> fsubst f g' = Ok h' ->
   q_at (fnum f) (fr_of g) = Some u -> q_at (fden f) (fr_of g) = Some v -> fst v <> [] -> fequiv h h'.
 Proof. exact fsubst_respects. Qed.
 Print Assumptions C05_subst_respects_inner.
+(* ... and only the rational function of f (g <> 0): evaluation at z := g is a ring homomorphism from Laurent
+   polynomials to fractions (proved by clearing denominators), so equivalent f give equivalent f(g) *)
+Theorem C05_evaluation_respects : forall t nf df ns ds u' v' u v,
+  fr_wf t -> fst t <> [] -> snd t <> [] -> wf nf -> wf df -> wf ns -> wf ds ->
+  deq (pmul nf ds) (pmul ns df) ->
+  q_at nf t = Some u' -> q_at df t = Some v' -> q_at ns t = Some u -> q_at ds t = Some v ->
+  fst v' <> [] -> fst v <> [] -> fr_deq (q_div u' v') (q_div u v).
+Proof. exact q_at_respects. Qed.
+Print Assumptions C05_evaluation_respects.
+Theorem C05_subst_respects_outer : forall f f' g h h', fok f -> fok f' -> fok g -> fnum g <> [] -> fequiv f f' ->
+  fsubst f g = Ok h -> fsubst f' g = Ok h' -> fequiv h h'.
+Proof. exact fsubst_respects_outer. Qed.
+Print Assumptions C05_subst_respects_outer.
 
-(* whole operator trees: the filter object a tree evaluates to denotes the tree's textbook value.
-   _partial: trees without substitution nodes (see above). *)
-Theorem C05_sem_sound_partial : forall e f s, no_call e = true -> feval e = Ok f -> sem e = Some s ->
+(* whole operator trees over + - * / ** (any integer exponent), scalar and reflected forms and substitution:
+   whenever the tree has a textbook value (no division by the zero function, no z := 0), the filter object it
+   evaluates to denotes that value *)
+Theorem C05_sem_sound : forall e f s, feval e = Ok f -> sem e = Some s ->
   frac_equiv (fr_of f) s /\ fden f <> [] /\ snd s <> [].
-Proof. exact sem_sound_equiv. Qed.
-Print Assumptions C05_sem_sound_partial.
+Proof. exact sem_sound_equiv_full. Qed.
+Print Assumptions C05_sem_sound.
+(* hence two trees with the same textbook value (e.g. the two sides of any field law) give equivalent filters *)
+Theorem C05_equal_values_equivalent : forall e e' f f' s s', feval e = Ok f -> feval e' = Ok f' ->
+  sem e = Some s -> sem e' = Some s' -> frac_equiv s s' -> fequiv f f'.
+Proof. exact sem_equal_values. Qed.
+Print Assumptions C05_equal_values_equivalent.
 
 (* ------------------------------------------------------------------ linearize *)
 (* a fractional power k is replaced by int(k) and int(k) + 1 with weights that sum to 1 and reproduce k ... *)
